@@ -154,6 +154,12 @@ var rwModel = []struct {
 	{"/cont/lld", configapi.ValueType_LEAFLIST_DECIMAL, false, "", []uint64{1}, true},
 	{"/cont/llf", configapi.ValueType_LEAFLIST_FLOAT, false, "", nil, true},
 	{"/cont/lly", configapi.ValueType_LEAFLIST_BYTES, false, "", nil, true},
+	// the same model types with and without type options (the width / precision the conversion looks up)
+	{"/cont/u0", configapi.ValueType_UINT, false, "", nil, true},
+	{"/cont/i0", configapi.ValueType_INT, false, "", nil, true},
+	{"/cont/sopt", configapi.ValueType_STRING, false, "", []uint64{8}, true},
+	{"/cont/bopt", configapi.ValueType_BOOL, false, "", []uint64{1}, true},
+	{"/cont/yopt", configapi.ValueType_BYTES, false, "", []uint64{4}, true},
 	{"/list[k=*]/k", configapi.ValueType_STRING, true, "k", nil, false},
 	{"/list[k=*]/v", configapi.ValueType_STRING, false, "", nil, false},
 	{"/list[k=*]/sub[j=*]/j", configapi.ValueType_STRING, true, "j", nil, true},
@@ -190,7 +196,11 @@ func encEnv(limit int) string {
 			if m.key {
 				k = "1"
 			}
-			rw = append(rw, hx(m.path)+"~"+k+"~"+hx(m.attr))
+			opts := []string{}
+			for _, o := range m.opts {
+				opts = append(opts, fmt.Sprint(o))
+			}
+			rw = append(rw, hx(m.path)+"~"+k+"~"+hx(m.attr)+"~"+joinOr(opts, "+"))
 		}
 		pls = append(pls, hx("devicesim")+":"+hx(v)+":"+strings.Join(rw, ","))
 	}
